@@ -60,7 +60,7 @@ R_EHEP == {"00", "I", "II", "III", "IV", "V", "0H", "0V", "None"}
 G_EHEP == {<<a, "cont", b>> : a \in R_EHEP \ {"0H", "00"}, b \in R_EHEP \ {"0H", "00"}}
           \cup {<<a, "detonation", "0H">> : a \in {"I", "III", "IV", "V"}}
           \cup {<<"00", "piston", b>> : b \in {"I", "II", "III", "IV", "V"}} \cup {<<"0H", "interface", "0V">>}
-Families == {"Noh", "Noh2", "Noh2Cog", "Sedov", "EPpiston", "EHEP", "Mader", "BBNoh"} \cup {"Blake", "SuOlson", "RadShock", "Riemann2D"} \cup BurnFams \cup RiemannFams \cup PlainFams \cup CogNone \cup CogDiv \cup CogFull \cup CogShock
+Families == {"Noh", "Noh2", "Noh2Cog", "Sedov", "EPpiston", "EHEP", "Mader", "BBNoh"} \cup {"Blake", "SuOlson", "RadShock", "Riemann2D", "SDRZ"} \cup BurnFams \cup RiemannFams \cup PlainFams \cup CogNone \cup CogDiv \cup CogFull \cup CogShock
 
 Cat == [f \in Families |->
   CASE f = "Noh"        -> Row("gamma", "euler",   "closed", {"post", "pre"}, G_PostPre, FALSE)
@@ -72,6 +72,7 @@ Cat == [f \in Families |->
     [] f = "EHEP"       -> RowF("gamma", "euler", "ehep", R_EHEP, G_EHEP, TRUE, {})
     [] f = "Mader"      -> RowF("cjisentrope", "none", "table", {"mader"}, G_Smooth, FALSE, {})
     [] f = "Riemann2D"  -> RowF("gamma2", "none", "root", {"B", "fanB", "Bs", "Ts", "fanT", "T"}, G_Riemann2D, FALSE, {"T"})
+    [] f = "SDRZ"       -> RowF("none", "none", "table", {"zone", "ahead"}, {<<"zone", "cont", "ahead">>}, FALSE, {})
     [] f = "RadShock"   -> RowF("radshock", "none", "ode", {"all"}, G_Smooth, FALSE, {})
     [] f = "SuOlson"    -> RowF("suolson", "none", "root", {"all"}, G_Smooth, FALSE, {})
     [] f = "Blake"      -> RowF("none", "none", "closed", {"he"}, G_Smooth, FALSE, {})
@@ -117,6 +118,7 @@ FieldLaws(f) ==
     [] f \in {"Rod1D", "RodNH", "Sandwich", "Hutchens1", "Hutchens2", "Rectangle", "CylSandwich"}
                       -> [eq |-> {"heat", "bc-left", "bc-right", "bc-bottom", "bc-top", "bc-surface", "initial", "steady", "regular"}, ineq |-> {}]
     [] f = "Riemann2D" -> [eq |-> {"speed2=u2+v2", "mach=speed/c", "fan.turning=nu(M2)-nu(M1)", "fan.isentropic", "fan.total-enthalpy"}, ineq |-> {}]
+    [] f = "SDRZ" -> [eq |-> {"mass-flux", "rayleigh-line", "energy", "sound", "ahead"}, ineq |-> {"lambda<=1", "lambda>=0"}]
     [] f = "RadShock" -> [eq |-> {"mass-flux", "momentum-flux", "energy-flux", "upstream.rho", "upstream.T", "upstream.mach", "upstream.equilibrium",
                                   "downstream.equilibrium"} \cup {"steady." \o n : n \in {"temperature", "temperature_mat", "temperature_rad", "density", "velocity",
                                   "pressure", "specific_internal_energy", "rade", "sound_speed"}}, ineq |-> {}]
